@@ -135,6 +135,42 @@ def valid_path(s):
     return all(e != '' and all(c in ok for c in e) for e in s[1:].split('/'))
 
 
+def _one_type(s, k):
+    """index after one complete type starting at s[k], or -1"""
+    if k >= len(s):
+        return -1
+    c = s[k]
+    if c in 'ybnqiuxtdsogvh':
+        return k + 1
+    if c == 'a':
+        if k + 1 < len(s) and s[k + 1] == '{':
+            if k + 2 >= len(s) or s[k + 2] not in 'ybnqiuxtdsogh':
+                return -1
+            e = _one_type(s, k + 3)
+            return e + 1 if e != -1 and e < len(s) and s[e] == '}' else -1
+        return _one_type(s, k + 1)
+    if c == '(':
+        k += 1
+        if k < len(s) and s[k] == ')':
+            return -1
+        while k < len(s) and s[k] != ')':
+            k = _one_type(s, k)
+            if k == -1:
+                return -1
+        return k + 1 if k < len(s) else -1
+    return -1
+
+
+def is_signature(s):
+    """DBus signature grammar: zero or more complete types"""
+    k = 0
+    while k < len(s):
+        k = _one_type(s, k)
+        if k == -1:
+            return False
+    return True
+
+
 def variant_ok(v):
     t = v[0]
     if t == 'I':
@@ -163,7 +199,7 @@ def has_type(sig, v):
     if sig == 'o':
         return t == 'S' and valid_path(v[1])
     if sig == 'g':
-        return t == 'S' and all(c in 'ybnqiuxtdsogvah(){}' for c in v[1]) and len(v[1]) <= 255
+        return t == 'S' and len(v[1]) <= 255 and is_signature(v[1])
     if sig == 'as':
         return t == 'L' and all('\0' not in e for e in v[1])
     if sig == 'v':
@@ -459,7 +495,9 @@ class Impl:
                 self.handler.exportObject(self.objs[op[1]])
             except Exception:
                 pass
-            return 'done', [], False
+            # third component: the object is NOT reachable afterwards (exportObject may raise for a partly
+            # assigned object; today it has registered the object by then)
+            return 'done', [], self.handler.exports.get(self.paths[op[1]]) is not self.objs[op[1]]
         if kind == 'assign':
             raised = False
             try:
@@ -555,8 +593,10 @@ class Oracle:
             seen_attr = set()
             for a, p, i in c['descs']:
                 if i is None:
-                    cands = [n for n, d in ifaces if p in d]
-                    if not cands:
+                    cands = sorted(set(n for n, d in ifaces if p in d))
+                    if len(cands) != 1:
+                        # no interface, or several: which one an unnamed DBusProperty means is not fixed by
+                        # the statement - such declarations are compared with the model only
                         self.judged = False
                         continue
                     i = cands[0]
@@ -652,7 +692,8 @@ class Oracle:
         kind = op[0]
         o = op[1]
         if kind == 'export':
-            self.exported.add(o)
+            if not raised:            # = the handler really holds the object now
+                self.exported.add(o)
             return
         if kind == 'assign':
             ip = self.attr.get(op[2])
@@ -895,7 +936,9 @@ def gen_decl_random(rng):
             lv = rng.randrange(depth)
             a = 'p%d' % n
             n += 1
-            classes[lv]['descs'].append([a, p[0], f['name'] if rng.random() < 0.75 else None])
+            unique = sum(1 for g in ifs for q in g['props'] if q[0] == p[0]) == 1
+            named = rng.random() < (0.6 if unique else 0.93)
+            classes[lv]['descs'].append([a, p[0], f['name'] if named else None])
             r = rng.random()
             if r < 0.08 and depth > 1:
                 # overridden in another class: same attribute, same property
@@ -949,7 +992,9 @@ def gen_decl_collision(rng):
     n = 0
     for f in ifs:
         for p in f['props']:
-            classes[rng.randrange(depth)]['descs'].append(['p%d' % n, p[0], f['name'] if rng.random() < 0.8 else None])
+            unique = sum(1 for g in ifs for q in g['props'] if q[0] == p[0]) == 1
+            named = rng.random() < (0.7 if unique else 0.95)
+            classes[rng.randrange(depth)]['descs'].append(['p%d' % n, p[0], f['name'] if named else None])
             n += 1
     return classes
 
